@@ -95,7 +95,7 @@ Proof. exact delete_spec. Qed.
 (* every view answers with bytes whose digest is the key asked for *)
 Theorem C02_reads_are_content_addressed : forall w k c, Inv H inflate w -> stored inflate w k = Some c -> H c = k.
 Proof. exact (stored_sound H inflate). Qed.
-(* THE property, as one statement: ANY finite history of add / pack / direct-to-pack (any mode) / import / delete / clean operations,
+(* THE property, as one statement: ANY finite history of add / pack / direct-to-pack (any mode) / import / delete / clean / repack operations,
    each run as its program from the world the previous one left (with whatever oracles - chunkings, blob encodings, orders - as long
    as they make sense there: History.pre), ends in a world that satisfies the invariant and in which EVERY key reads back exactly what
    the key -> bytes map obtained by folding the obvious map updates (History.spec) holds for it *)
